@@ -390,6 +390,95 @@ theorem rinv_reg_shape (s s' : St) (tr : Trace) (op : Op) (o : List Out) (c : Na
     · rw [(hc c1 hne).2.1] at h
       obtain ⟨o', ho⟩ := h4 c1 d h; exact ⟨o', List.mem_cons_of_mem _ ho⟩
 
+/-- C09-5 repaired: an established, live connection moves from its old datapath id to `d` -/
+theorem rinv_move_shape (s s' : St) (tr : Trace) (op : Op) (o : List Out) (c d : Nat) (hr : RInv s tr)
+    (hlt : c < s.n) (hn : s'.n = s.n) (hd : (s.conns c).disc = false) (hdp : (s.conns c).dpid ≠ some d)
+    (hreg : ∀ k, s'.reg k = if k = some d then some c else (s.dropOwn (s.conns c).dpid c).reg k)
+    (hout : ∀ k, regIn o k = if some d = k then some c else none)
+    (hc : ∀ c', c' ≠ c → (s'.conns c').up = (s.conns c').up ∧ (s'.conns c').dpid = (s.conns c').dpid ∧
+        (s'.conns c').disc = (s.conns c').disc)
+    (hcc : (s'.conns c).up = true ∧ (s'.conns c).dpid = some d ∧ (s'.conns c).disc = false)
+    (hop : op = .msg c (.featuresReply d)) :
+    RInv s' ((op, o) :: tr) := by
+  obtain ⟨h1, h2, h3, h4⟩ := hr
+  constructor
+  · intro k c1 h
+    rw [hreg] at h
+    split at h
+    · rename_i hk; injection h with h; subst h; subst hk
+      exact ⟨by omega, hcc.2.1, hcc.1, hcc.2.2⟩
+    · rename_i hk
+      rw [dropOwn_reg] at h
+      split at h
+      · cases h
+      · rename_i hne
+        obtain ⟨a1, a2, a3, a4⟩ := h1 k c1 h
+        have hne1 : c1 ≠ c := by
+          intro e; subst e; apply hne; exact ⟨a2.symm, by rw [a2]; exact h⟩
+        obtain ⟨b1, b2, b3⟩ := hc c1 hne1
+        exact ⟨by omega, by rw [b2, a2], by rw [b1, a3], by rw [b3, a4]⟩
+  · intro k
+    rw [hreg, lastReg_cons, hout]
+    by_cases hk : k = some d
+    · subst hk; simp [hcc.2.2, hcc.2.1]
+    · have hk' : ¬ some d = k := fun e => hk e.symm
+      simp only [hk, hk', if_false, Option.none_or]
+      rw [dropOwn_reg]
+      have h2k := h2 k
+      cases hlr : lastReg tr k with
+      | none =>
+        rw [hlr] at h2k; simp only [Option.bind_none] at h2k ⊢
+        split
+        · rfl
+        · exact h2k
+      | some c1 =>
+        rw [hlr] at h2k
+        simp only [Option.bind_some] at h2k ⊢
+        by_cases hne : c1 = c
+        · subst hne
+          rw [hcc.2.1]
+          simp only [hk', ne_eq, not_false_eq_true, or_true, if_true]
+          split
+          · rfl
+          · rename_i hno
+            rw [h2k]
+            split
+            · rfl
+            · rename_i hlive
+              exfalso; apply hno
+              have hkk : (s.conns c1).dpid = k := by
+                by_cases e : (s.conns c1).dpid = k
+                · exact e
+                · exact absurd (Or.inr e) hlive
+              refine ⟨hkk.symm, ?_⟩
+              rw [hkk, h2k]; simp [hlive]
+        · obtain ⟨b1, b2, b3⟩ := hc c1 hne
+          rw [b2, b3]
+          split
+          · rename_i he
+            obtain ⟨e1, e2⟩ := he
+            have : s.reg k = some c := by rw [e1]; exact e2
+            rw [h2k] at this
+            split at this
+            · cases this
+            · injection this with this; exact absurd this hne
+          · exact h2k
+  · intro k c1 h
+    rw [lastReg_cons, hout] at h
+    by_cases hk : some d = k
+    · simp [hk] at h; subst h; exact hcc.1
+    · simp [hk] at h
+      by_cases hne : c1 = c
+      · subst hne; exact hcc.1
+      · rw [(hc c1 hne).1]; exact h3 k c1 h
+  · intro c1 d1 h
+    by_cases hne : c1 = c
+    · subst hne
+      rw [hcc.2.1] at h; injection h with h; subst h
+      exact ⟨o, by rw [hop]; exact List.mem_cons_self⟩
+    · rw [(hc c1 hne).2.1] at h
+      obtain ⟨o', ho⟩ := h4 c1 d1 h; exact ⟨o', List.mem_cons_of_mem _ ho⟩
+
 /-- the datapath id announced by a features reply agrees with the one the connection already has -/
 def Compat (s : St) (op : Op) : Prop :=
   ∀ c d d0, op = .msg c (.featuresReply d) → (s.conns c).dpid = some d0 → d0 = d
@@ -399,7 +488,7 @@ local macro "quiet" : tactic => `(tactic| (
   (try simp [ev2, regOf, disconnect_true_outs, disconnect_nodpid_outs, apply_ite Conn.up, apply_ite Conn.dpid, apply_ite Conn.disc,
      disconnect_disc]) <;> (try grind)))
 
-theorem rinv_step (s : St) (tr : Trace) (op : Op) (hs : SInv s) (hr : RInv s tr) (hcompat : Compat s op) :
+theorem rinv_step (s : St) (tr : Trace) (op : Op) (hs : SInv s) (hr : RInv s tr) (hcompat : v = true ∨ Compat s op) :
     RInv (step R s op).1 ((op, (step R s op).2) :: tr) := by
   apply step_elim s op hs (fun r => RInv r.1 ((op, r.2) :: tr))
   case connect => intro _; quiet
@@ -489,18 +578,29 @@ theorem rinv_step (s : St) (tr : Trace) (op : Op) (hs : SInv s) (hr : RInv s tr)
     · intro k hk; exact absurd hk (hnoreg k)
     · intro d hd; exact Or.inl hd
   case upFeatures =>
-    intro c d hlt hd hu h
+    intro c d hlt hd hu h hsame
+    have hdpid : (s.conns c).dpid = some d := by
+      rcases hsame with hv | hsame
+      · rcases hcompat with hv' | hcompat
+        · rw [hv] at hv'; cases hv'
+        · cases hdp : (s.conns c).dpid with
+          | none => have := hs.upDpid c hu; simp [hdp] at this
+          | some d0 => rw [hcompat c d d0 h hdp]
+      · exact hsame
     refine rinv_reg_shape s _ tr op _ c (some d) hr hlt (by simp) (by intro k; simp) ?_ ?_ ?_ hd ?_ ?_
     · intro k; exact regIn_cons_reg _ _ _ _ (by simp [ev2, regOf])
     · intro c' hne; simp [hne]
     · simp [hd, hu]
     · intro k hk
       have := (hr.sound k c hk).2.1
-      rw [← this]
-      cases hdp : (s.conns c).dpid with
-      | none => have := hs.upDpid c hu; simp [hdp] at this
-      | some d0 => rw [hcompat c d d0 h hdp]
+      rw [← this]; exact hdpid
     · intro d' hd'; injection hd' with hd'; subst hd'; exact Or.inr h
+  case upFeaturesMove =>
+    intro c d hlt hd hu h _ hdp
+    refine rinv_move_shape s _ tr op _ c d hr hlt (by simp) hd hdp (by intro k; simp) ?_ ?_ ?_ h
+    · intro k; exact regIn_cons_reg _ _ _ _ (by simp [ev2, regOf])
+    · intro c' hne; simp [hne]
+    · simp [hd, hu]
 /-! ### invariants along `run` -/
 
 theorem outs_cons (e : Op × List Out) (tr : Trace) : outs (e :: tr) = outs tr ++ e.2 := by
@@ -542,11 +642,11 @@ theorem tinv_step (s : St) (tr : Trace) (op : Op) (h : TInv s tr) :
   refine ⟨sinv_step s op hs, ?_, ?_, ?_, ?_, prov_step s tr op hs h5, ⟨⟨?_, ?_⟩, h6⟩⟩
   · intro b c
     rw [outs_cons, List.count_append, h1 b c]
-    have := up_count_step s op hs b c
+    have := up_count_step (v := v) s op hs b c
     simp only at this ⊢; omega
   · intro b c
     rw [outs_cons, List.count_append, h2 b c]
-    have := down_count_step s op hs b c
+    have := down_count_step (v := v) s op hs b c
     simp only at this ⊢; omega
   · intro c
     rw [outs_cons, List.mem_append, closed_step s op hs c, h3 c]
@@ -576,30 +676,48 @@ def SameDpid (ops : List Op) : Prop :=
 theorem rinv_init : RInv init [] := by
   constructor <;> simp [init, lastReg]
 
+theorem compat_of_sameDpid (p : St × Trace) (op : Op) (ops : List Op) (hr : RInv p.1 p.2)
+    (hsd : v = true ∨ SameDpid (p.2.map (·.1) ++ op :: ops)) : v = true ∨ Compat p.1 op := by
+  rcases hsd with hv | hsd
+  · exact Or.inl hv
+  · right
+    intro c d d0 hop hdp
+    obtain ⟨o, ho⟩ := hr.hist c d0 hdp
+    refine hsd c d0 d ?_ ?_
+    · exact List.mem_append_left _ (List.mem_map.mpr ⟨_, ho, rfl⟩)
+    · rw [hop]; exact List.mem_append_right _ List.mem_cons_self
+
+theorem sameDpid_step (p : St × Trace) (op : Op) (ops : List Op)
+    (hsd : v = true ∨ SameDpid (p.2.map (·.1) ++ op :: ops)) :
+    v = true ∨ SameDpid ((stepT R p op).2.map (·.1) ++ ops) := by
+  rcases hsd with hv | hsd
+  · exact Or.inl hv
+  · right
+    intro c d d' h1 h2
+    refine hsd c d d' ?_ ?_ <;> (simp [stepT] at *; grind)
+
+/-- the registry invariant holds along every history — with C09-5 repaired (`v = true`) unconditionally, otherwise provided
+each connection's features replies all name one datapath id -/
 theorem rinv_foldl (ops : List Op) (p : St × Trace) (hs : TInv p.1 p.2) (hr : RInv p.1 p.2)
-    (hsd : SameDpid (p.2.map (·.1) ++ ops)) :
+    (hsd : v = true ∨ SameDpid (p.2.map (·.1) ++ ops)) :
     RInv (ops.foldl (stepT R) p).1 (ops.foldl (stepT R) p).2 := by
   induction ops generalizing p with
   | nil => exact hr
   | cons op ops ih =>
-    refine ih _ (tinv_step p.1 p.2 op hs) (rinv_step p.1 p.2 op hs.sinv hr ?_) ?_
-    · intro c d d0 hop hdp
-      obtain ⟨o, ho⟩ := hr.hist c d0 hdp
-      refine hsd c d0 d ?_ ?_
-      · exact List.mem_append_left _ (List.mem_map.mpr ⟨_, ho, rfl⟩)
-      · rw [hop]; exact List.mem_append_right _ List.mem_cons_self
-    · intro c d d' h1 h2
-      refine hsd c d d' ?_ ?_ <;> (simp [stepT] at *; grind)
+    exact ih _ (tinv_step p.1 p.2 op hs) (rinv_step p.1 p.2 op hs.sinv hr (compat_of_sameDpid p op ops hr hsd))
+      (sameDpid_step p op ops hsd)
 
-theorem rinv_run (ops : List Op) (hsd : SameDpid ops) : RInv (run R ops).1 (run R ops).2 :=
+theorem rinv_run (ops : List Op) (hsd : v = true ∨ SameDpid ops) : RInv (run R ops).1 (run R ops).2 :=
   rinv_foldl ops _ tinv_init rinv_init (by simpa using hsd)
 /-! ### completeness of the registry when connections of one datapath never overlap -/
 
 /-- a registry entry disappears only when its connection is disconnected -/
 theorem reg_keep_step (s : St) (op : Op) (hs : SInv s) (k : Option Nat) (c : Nat) (hk : s.reg k = some c)
-    (hd : ((step R s op).1.conns c).disc = false) : (step R s op).1.reg k ≠ none := by
-  revert hd
-  apply step_elim s op hs (fun r => (r.1.conns c).disc = false → r.1.reg k ≠ none)
+    (hkd : (s.conns c).dpid = k)
+    (hd : ((step R s op).1.conns c).disc = false) (hdp : ((step R s op).1.conns c).dpid = k) :
+    (step R s op).1.reg k ≠ none := by
+  revert hd hdp
+  apply step_elim s op hs (fun r => (r.1.conns c).disc = false → (r.1.conns c).dpid = k → r.1.reg k ≠ none)
   case sendSome =>
     intro d x c0 _ _
     simp only [sendRaw]
@@ -610,7 +728,7 @@ theorem reg_keep_step (s : St) (op : Op) (hs : SInv s) (k : Option Nat) (c : Nat
     · simp [hk]
   all_goals
     intros
-    simp_all [disconnect_reg, disconnect_disc, close_reg, close_disc, finish_reg, apply_ite Conn.disc]
+    simp_all [disconnect_reg, disconnect_disc, close_reg, close_disc, finish_reg, apply_ite Conn.disc, apply_ite Conn.dpid, dropOwn_reg]
     try grind
 
 /-- a connection that becomes live-and-announced under `d` in this step is registered under `d` by this step -/
@@ -633,7 +751,7 @@ theorem new_live_reg_step (s : St) (op : Op) (hs : SInv s) (c d : Nat)
   all_goals
     intros
     simp_all [disconnect_reg, disconnect_disc, close_reg, close_disc, finish_reg, finish_up, apply_ite Conn.disc, apply_ite Conn.up,
-      apply_ite Conn.dpid]
+      apply_ite Conn.dpid, dropOwn_reg]
     try grind
 
 /-- `c` is a live, announced connection of datapath `d` -/
@@ -644,14 +762,14 @@ def LiveUp (s : St) (c d : Nat) : Prop :=
 def NoOverlap (s : St) : Prop := ∀ c c' d, LiveUp s c d → LiveUp s c' d → c = c'
 
 /-- … at every point of the history -/
-def NoOverlapAlong : St × Trace → List Op → Prop
+def NoOverlapAlong (w : Bool) : St × Trace → List Op → Prop
   | _, [] => True
-  | p, op :: ops => NoOverlap (stepT R p op).1 ∧ NoOverlapAlong (stepT R p op) ops
+  | p, op :: ops => NoOverlap (stepT (Cfg.rv w) p op).1 ∧ NoOverlapAlong w (stepT (Cfg.rv w) p op) ops
 
 /-- completeness of the registry -/
 def Complete (s : St) : Prop := ∀ c d, LiveUp s c d → s.reg (some d) = some c
 
-theorem complete_step (s : St) (tr : Trace) (op : Op) (hs : SInv s) (hr : RInv s tr) (hcompat : Compat s op)
+theorem complete_step (s : St) (tr : Trace) (op : Op) (hs : SInv s) (hr : RInv s tr) (hcompat : v = true ∨ Compat s op)
     (hj : Complete s) (hno : NoOverlap (step R s op).1) : Complete (step R s op).1 := by
   have hr' := rinv_step s tr op hs hr hcompat
   intro c d hl
@@ -660,7 +778,7 @@ theorem complete_step (s : St) (tr : Trace) (op : Op) (hs : SInv s) (hr : RInv s
   · have hc : c < s.n := by
       apply Nat.lt_of_not_le; intro hle; have := hs.fresh c hle; rw [this] at hold; simp at hold
     have hreg := hj c d ⟨hc, hold⟩
-    have hne := reg_keep_step s op hs (some d) c hreg l3
+    have hne := reg_keep_step (v := v) s op hs (some d) c hreg hold.2.2 l3 l4
     cases hk : (step R s op).1.reg (some d) with
     | none => exact absurd hk hne
     | some c1 =>
@@ -669,23 +787,16 @@ theorem complete_step (s : St) (tr : Trace) (op : Op) (hs : SInv s) (hr : RInv s
   · exact new_live_reg_step s op hs c d l2 l3 l4 hold
 
 theorem complete_foldl (ops : List Op) (p : St × Trace) (hs : TInv p.1 p.2) (hr : RInv p.1 p.2) (hj : Complete p.1)
-    (hsd : SameDpid (p.2.map (·.1) ++ ops)) (hno : NoOverlapAlong p ops) :
+    (hsd : v = true ∨ SameDpid (p.2.map (·.1) ++ ops)) (hno : NoOverlapAlong v p ops) :
     Complete (ops.foldl (stepT R) p).1 := by
   induction ops generalizing p with
   | nil => exact hj
   | cons op ops ih =>
-    have hcompat : Compat p.1 op := by
-      intro c d d0 hop hdp
-      obtain ⟨o, ho⟩ := hr.hist c d0 hdp
-      refine hsd c d0 d ?_ ?_
-      · exact List.mem_append_left _ (List.mem_map.mpr ⟨_, ho, rfl⟩)
-      · rw [hop]; exact List.mem_append_right _ List.mem_cons_self
-    refine ih _ (tinv_step p.1 p.2 op hs) (rinv_step p.1 p.2 op hs.sinv hr hcompat)
-      (complete_step p.1 p.2 op hs.sinv hr hcompat hj hno.1) ?_ hno.2
-    intro c d d' h1 h2
-    refine hsd c d d' ?_ ?_ <;> (simp [stepT] at *; grind)
+    have hcompat := compat_of_sameDpid p op ops hr hsd
+    exact ih _ (tinv_step p.1 p.2 op hs) (rinv_step p.1 p.2 op hs.sinv hr hcompat)
+      (complete_step p.1 p.2 op hs.sinv hr hcompat hj hno.1) (sameDpid_step p op ops hsd) hno.2
 
-theorem complete_run (ops : List Op) (hsd : SameDpid ops) (hno : NoOverlapAlong (init, []) ops) :
+theorem complete_run (ops : List Op) (hsd : v = true ∨ SameDpid ops) (hno : NoOverlapAlong v (init, []) ops) :
     Complete (run R ops).1 :=
   complete_foldl ops _ tinv_init rinv_init (by intro c d h; simp [LiveUp, init] at h) (by simpa using hsd) hno
 /-- executable form of `NoOverlap` (used only to check concrete examples) -/
@@ -701,11 +812,12 @@ theorem noOverlap_of_B (s : St) (h : noOverlapB s = true) : NoOverlap s := by
   simp [a2, a3, a4, b2, b3, b4] at this
   exact this
 
-def noOverlapAlongB : St × Trace → List Op → Bool
+def noOverlapAlongB (w : Bool) : St × Trace → List Op → Bool
   | _, [] => true
-  | p, op :: ops => noOverlapB (stepT R p op).1 && noOverlapAlongB (stepT R p op) ops
+  | p, op :: ops => noOverlapB (stepT (Cfg.rv w) p op).1 && noOverlapAlongB w (stepT (Cfg.rv w) p op) ops
 
-theorem noOverlapAlong_of_B (p : St × Trace) (ops : List Op) (h : noOverlapAlongB p ops = true) : NoOverlapAlong p ops := by
+theorem noOverlapAlong_of_B (w : Bool) (p : St × Trace) (ops : List Op) (h : noOverlapAlongB w p ops = true) :
+    NoOverlapAlong w p ops := by
   induction ops generalizing p with
   | nil => trivial
   | cons op ops ih =>
